@@ -559,6 +559,7 @@ func noReturnCommands(in ssa.Instruction) bool {
 }
 
 var c08Canaries = []Canary{
+	{Name: "r7-status-before-clearing", ExpectKey: "C08.R6#filter-process:status-after-not-a-pointer-cleared", Edits: []Edit{{File: "commands/command_filter_process.go", Find: "\t\t\tExitWithError(errors.New(tr.Tr.Get(\"unknown command %q\", req.Header[\"command\"])))\n\t\t}\n\n\t\tif errors.IsNotAPointerError(err) {\n\t\t\tmalformed = append(malformed, req.Header[\"pathname\"])\n\t\t\terr = nil\n\t\t} else if possiblyMalformedObjectSize(n) {\n\t\t\tmalformedOnWindows = append(malformedOnWindows, req.Header[\"pathname\"])\n\t\t}\n\n\t\tvar status git.FilterProcessStatus\n\t\tif delayed {\n\t\t\t// If delayed, there is no need to call w.Flush() since\n", Repl: "\t\t\tExitWithError(errors.New(tr.Tr.Get(\"unknown command %q\", req.Header[\"command\"])))\n\t\t}\n\n\t\tvar status git.FilterProcessStatus\n\t\tif delayed {\n\t\t\t// If delayed, there is no need to call w.Flush() since\n"}, {File: "commands/command_filter_process.go", Find: "\t\t}\n\n\t\ts.WriteStatus(status)\n\t}\n\n\tif len(malformed) > 0 {\n", Repl: "\t\t}\n\n\t\ts.WriteStatus(status)\n\n\t\t// Only list a file in the summary below once its response has\n\t\t// actually been written back to Git.\n\t\tif errors.IsNotAPointerError(err) {\n\t\t\tmalformed = append(malformed, req.Header[\"pathname\"])\n\t\t\terr = nil\n\t\t} else if possiblyMalformedObjectSize(n) {\n\t\t\tmalformedOnWindows = append(malformedOnWindows, req.Header[\"pathname\"])\n\t\t}\n\t}\n\n\tif len(malformed) > 0 {\n"}}},
 	{Name: "r6-copy-helper-stops-early", ExpectKey: "C08.R1#copy-with-callback:reads-to-the-end", Edits: []Edit{{File: "tools/iotools.go", Find: "\t\treturn io.Copy(writer, reader)\n\t}\n\n\tcbReader := &CallbackReader{\n\t\tC:         cb,\n\t\tTotalSize: totalSize,\n", Repl: "\t\treturn io.Copy(writer, reader)\n\t}\n\n\tif totalSize > 0 {\n\t\t// Progress is reported against totalSize, so keep the amount\n\t\t// read (and reported) within it.\n\t\treader = io.LimitReader(reader, totalSize)\n\t}\n\n\tcbReader := &CallbackReader{\n\t\tC:         cb,\n\t\tTotalSize: totalSize,\n"}}},
 	{Name: "r5-canonical-only-passes", ExpectKey: "C08.R4#content-verdict", Edits: []Edit{{File: "lfs/gitfilter_clean.go", Find: "\tif rerr != nil || (err == nil && len(by) < blobSizeCutoff) {", Repl: "\tif rerr != nil || (err == nil && ptr.Canonical && len(by) < blobSizeCutoff) {"}}},
 	{Name: "r4-unbounded-extension-split", ExpectKey: "C08.R4#extension-key", Edits: []Edit{{File: "lfs/pointer.go", Find: "strings.SplitN(key, \"-\", 3)", Repl: "strings.Split(key, \"-\")"}}},
